@@ -25,9 +25,19 @@ for d in seeded/*/; do
     fi
   done
   line="$name base=$base"
+  # a change that only another property's check can see (the property's own check does not go through the changed
+  # code) is run against the sibling checks named in its meta.json
+  ids=$id
+  if grep -q '"by-sibling"' $d/meta.json; then
+    ids=$(python3 -c "import json,re,sys;m=json.load(open(sys.argv[1]));print(' '.join(sorted(set(re.findall(r'C\d\d',' '.join(m['failing_sub_checks']))))))" $d/meta.json)
+    line="$line via=$(echo $ids | tr ' ' ',')"
+  fi
   for s in $seeds; do
-    VERIF_SEED=$s VERIF_REPO=$scr ./check $id > /tmp/seedmx-$$.log 2>&1; rc=$?
-    case $rc in 1) r=caught;; 0) r=MISSED;; *) r=inconclusive;; esac
+    r=MISSED
+    for cid in $ids; do
+      VERIF_SEED=$s VERIF_REPO=$scr ./check $cid > /tmp/seedmx-$$.log 2>&1; rc=$?
+      case $rc in 1) r=caught; break;; 0) ;; *) [ $r = MISSED ] && r=inconclusive;; esac
+    done
     line="$line seed$s=$r"
   done
   echo "$line"
